@@ -417,6 +417,9 @@ func checkC03(p *core.Program, r *core.Report) {
 	const R10 = "C03.R10 no-lock-order-cycle"
 	r.Rule(R10, "the lock-order graph of the repo has no cycle: an endpoint that deadlocks between its timer and its state mutex neither completes nor closes, while its peer gives up (rule shared with C08.R3)")
 	importRules(p, r, "C08", map[string]string{"C08.R3 lock-order": R10}, nil)
+	const R11 = "C03.R11 no-stale-timeout"
+	r.Rule(R11, "a handshake timer that was stopped or replaced does not deliver its timeout (cancellation protocol of C14.R1-R3, R5): a stale timeout aborts a side that has just granted a prolongation, so a later approval completes nothing")
+	importRules(p, r, "C14", map[string]string{"C14.R1 per-arm-token": R11, "C14.R2 non-lossy-stop": R11, "C14.R3 fire-revalidation": R11, "C14.R5 arm-always-arms": R11}, nil)
 	_ = reflect.TypeOf
 }
 
